@@ -223,8 +223,12 @@ def gen_cmds(r,depth,n,in_div=False,in_chord=False,top=False):
         elif x<0.90 and depth>0 and not in_div and not in_chord:
             b=gen_cmds(r,1 if r.random()<0.3 else 0,r.randrange(1,5),in_div=True)
             out.append(('div',b,gen_len(r),r.choice(['{','{','D'])))
-        elif x<0.94 and not in_chord and not in_div:
-            b=[gen_note(r,0,False) for _ in range(r.randrange(1,4))]; b=[c for c in b if c[0]=='note'] or [('note','c',0,False,None,None,None,None,None)]
+        elif x<0.94 and not in_chord:
+            # (inside a tuplet every member of a chord is one counted element: the lexer counts note tokens)
+            b=[gen_note(r,0,in_div) for _ in range(r.randrange(1,4))]; b=[c for c in b if c[0]=='note'] or [('note','c',0,False,None,None,None,None,None)]
+            if in_div:
+                out.append(('chord',b,None,r.choice([None,None,50,100]),r.choice([None,None,77])))
+                continue
             if r.random()<0.3:
                 # other time-moving elements inside a chord (a rest, a numbered note): the chord still advances by exactly its own length
                 extra=('rest',gen_len(r),1) if r.random()<0.6 else None
